@@ -294,7 +294,18 @@ func main() {
 		findings = append(findings, o.Findings...)
 		troubles = append(troubles, o.Troubles...)
 		if r.exit != 0 {
-			if r.exit == 3 {
+			if r.exit == 4 && o.InProgress != 0 {
+				// The code under test deadlocked (see simkit.DeadlockSite).
+				var p simkit.Plan
+				if e := simkit.ReadJSON(r.job.Out+".inprogress", &p); e == nil {
+					findings = append(findings, simkit.Finding{
+						Violation: simkit.Violation{Property: prop, Rule: "deadlock", Class: deadlockSite(r.log), Detail: "the code under test deadlocked while executing this plan (nothing runs; a goroutine waits for a mutex inside mutagen):\n" + firstLines(r.log, 40)},
+						Plan:      &p, Original: &p,
+					})
+				} else {
+					troubles = append(troubles, fmt.Sprintf("worker %d deadlocked and no in-progress plan was found:\n%s", r.job.Worker, r.log))
+				}
+			} else if r.exit == 3 {
 				troubles = append(troubles, fmt.Sprintf("worker %d hit the watchdog (seed %d scenario %s):\n%s", r.job.Worker, o.InProgress, o.InProgressScenario, r.log))
 			} else if o.InProgress != 0 {
 				// The process died while executing a plan (a panic in a system
@@ -437,6 +448,17 @@ func matchKnown(known []knownFinding, prop string, v simkit.Violation) *knownFin
 	return nil
 }
 
+// deadlockSite extracts the site from a worker log's DEADLOCK line.
+func deadlockSite(log string) string {
+	for _, line := range strings.Split(log, "\n") {
+		if rest, ok := strings.CutPrefix(line, "DEADLOCK: site="); ok {
+			site, _, _ := strings.Cut(rest, " ")
+			return site
+		}
+	}
+	return "unknown"
+}
+
 // confirm writes the replay file and re-executes it in a fresh process.
 func confirm(root, bin, dir, prop string, f simkit.Finding) (string, string) {
 	os.MkdirAll(filepath.Join(root, "replays"), 0o755)
@@ -455,10 +477,16 @@ func confirm(root, bin, dir, prop string, f simkit.Finding) (string, string) {
 		job := simkit.Job{Property: prop, Mode: "replay", Replay: plan, Repeat: 5, Worker: 900}
 		wr := runWorker(bin, job, dir, 10*time.Minute)
 		if f.Violation.Rule == "process-crash" {
-			if wr.exit != 0 && wr.exit != 3 {
+			if wr.exit != 0 && wr.exit != 3 && wr.exit != 4 {
 				return 3, 3
 			}
 			return 0, 3
+		}
+		if f.Violation.Rule == "deadlock" {
+			if wr.exit == 4 && deadlockSite(wr.log) == f.Violation.Class {
+				return 1, 1
+			}
+			return 0, 1
 		}
 		if wr.out == nil {
 			return 0, 3
@@ -502,8 +530,15 @@ func doReplay(root, bin, dir, prop, file string) int {
 		job := simkit.Job{Property: prop, Mode: "replay", Replay: rf.Plan, Repeat: 1, Worker: 901}
 		wr := runWorker(bin, job, dir, 10*time.Minute)
 		if rf.Rule == "process-crash" {
-			if wr.exit != 0 && wr.exit != 3 {
+			if wr.exit != 0 && wr.exit != 3 && wr.exit != 4 {
 				fmt.Printf("VIOLATION property=%s replay=%s\n  rule=process-crash\n%s\n", prop, file, firstLines(wr.log, 30))
+				return 1
+			}
+			continue
+		}
+		if rf.Rule == "deadlock" {
+			if wr.exit == 4 && deadlockSite(wr.log) == rf.Class {
+				fmt.Printf("VIOLATION property=%s replay=%s\n  rule=deadlock class=%s\n%s\n", prop, file, rf.Class, firstLines(wr.log, 30))
 				return 1
 			}
 			continue
